@@ -3,6 +3,35 @@ import core
 from props import solve_common
 
 
+def list_stream(ctx):
+    """soft constraints next to list constraints: scalars and constant-index elements of fixed-size lists carry soft constraints,
+    related to each other by hard statements in both operand orders (the rand sets they sit in are merged along the way)"""
+    import random
+    import listgen
+    from props import c04
+    rnd = random.Random("C05-lists-%d" % ctx.seed)
+    n = 120 if ctx.quick() else 2500
+    scs = [listgen.ListGen(random.Random(rnd.random()), softs=True).scenario() for _ in range(n)]
+    obs, results, crashed = c04.evaluate(ctx, scs, "c05l")
+    ev = 0
+    for si, o in crashed:
+        ctx.tie_broken.append("implementation worker crashed: %s" % str(o)[:500])
+        core.add_violation(ctx, "library raised outside a randomize call on a list scenario with soft constraints: %s" % str(o)[:300],
+                           {"scenario": scs[si], "observed": str(o)[:2000]})
+    for si, oi, code, res, rsz in results:
+        ev += 1
+        if code is None:
+            ctx.tie_broken.append("Coq evaluation failed for list scenario %d call %d" % (si, oi))
+        elif code & (64 | 128 | 8):
+            core.add_violation(ctx, "soft constraints next to list constraints: a soft constraint that could have been honoured was not, "
+                                    "the soft terms differ from the specification, or a satisfiable system failed (bits %d; outcome %s)"
+                               % (code & (64 | 128 | 8), res["outcome"]),
+                               {"scenario": solve_common.brief(scs[si], oi), "observed": {k: res.get(k) for k in ("outcome", "err", "before", "values")}, "code": code})
+        elif code & 1:
+            ctx.tie_broken.append("model's lowering != recorded solver terms in list scenario with softs %r" % (solve_common.brief(scs[si], oi),))
+    ctx.coverage["list_scenarios_with_softs"] = {"scenarios": n, "evaluations": ev}
+
+
 def run(ctx):
     core.check_prop_file(ctx, "Prop_C05.v")
     scs, stats = solve_common.run_generic(
@@ -11,6 +40,7 @@ def run(ctx):
              "honoured higher-priority soft constraints, or the soft terms / their priority order differ from the specification, "
              "or a satisfiable hard system failed",
         n_quick=110, n_thorough=3500, softs=True, soft_bias=True)
+    list_stream(ctx)
     nsoft = sum(repr(s).count('"soft"') + repr(s).count("'soft'") for s in scs)
     ctx.coverage.update({
         "evaluations": stats["evaluations"],
